@@ -446,7 +446,11 @@ func collectSignedHeaders(r *http.Request, headersToInclude []string) []pair {
 	for headerKey, headerValues := range r.Header {
 		headerKey = strings.ToLower(headerKey)
 		if includeInCanonicalHeaders(headerKey, headersToInclude) {
-			headerVal := strings.TrimSpace(strings.Join(headerValues, ","))
+			canonicalValues := make([]string, len(headerValues))
+			for i, headerValue := range headerValues {
+				canonicalValues[i] = collapseSpaces(strings.TrimSpace(headerValue))
+			}
+			headerVal := strings.Join(canonicalValues, ",")
 			headers = append(headers, pair{
 				key: headerKey,
 				val: headerVal,
@@ -457,6 +461,15 @@ func collectSignedHeaders(r *http.Request, headersToInclude []string) []pair {
 		return cmp.Compare(a.key, b.key)
 	})
 	return headers
+}
+
+// collapseSpaces converts sequential spaces to a single space, as SigV4
+// prescribes for canonical header values.
+func collapseSpaces(value string) string {
+	for strings.Contains(value, "  ") {
+		value = strings.ReplaceAll(value, "  ", " ")
+	}
+	return value
 }
 
 func generateCanonicalHeaders(r *http.Request, headersToInclude []string) string {
